@@ -194,7 +194,7 @@ fn arb_obj(n: usize) -> BoxedStrategy<(Obj, Obj)> {
 }
 
 fn strategy(_t: Tier) -> BoxedStrategy<Case> {
-    prop_oneof![3 => 0usize..=4, 5 => 5usize..=12, 2 => 13usize..=31]
+    prop_oneof![3 => 0usize..=4, 5 => 5usize..=12, 2 => 13usize..=32]
         .prop_flat_map(|n| (arb_obj(n), vec(any::<u32>(), 4..=10)).prop_map(move |((a, b), ms)| Case { n, a, b, ms }))
         .boxed()
 }
@@ -273,7 +273,7 @@ pub fn run(c: &Case) -> Verdict {
         }
         _ => {}
     }
-    let mut labels = vec![format!("kind:{}", kind), format!("n:{}", match c.n { 0..=4 => "<=4", 5..=12 => "5-12", _ => "13-31" })];
+    let mut labels = vec![format!("kind:{}", kind), format!("n:{}", match c.n { 0..=4 => "<=4", 5..=12 => "5-12", _ => "13-32" })];
     if f.max_index() >= 10 {
         labels.push("two-digit-index".into());
     }
@@ -374,7 +374,7 @@ fn enumerate(t: Tier, shard: usize, nshards: usize, f: &mut dyn FnMut(Case) -> b
 pub fn def() -> PropDef {
     PropDef {
         id: "C16",
-        rule: "cases = (n, object, second object, assignments): a Cube, Ecube, Sop, Esop or Soes built from a build description (every constructor, operator results included; Sop/Esop/Soes over min(n,12) variables, cubes over up to 31 so that two-digit indices occur). to_string() is read by the harness's own tokenizer + parser for `or := xor ('|' xor)*, xor := prod ('^' prod)*, prod := ('0' | '1' | '!'? 'x' digits)+` (white space insignificant) — the text must parse completely — and evaluated on all assignments (<= 8 variables; cubes: n<=5) or on generated 32-bit assignments plus all-zeros/all-ones otherwise, and compared with the object's own value(). Variable indices must be strictly increasing inside each product and inside each XOR term; for cubes and exclusive cubes a == b iff their texts are equal. Non-trivial = the text contains a `!`, a two-digit index or >= 2 terms. Exhaustive: all cubes and exclusive cubes of n<=4 (each paired with itself and three neighbours for the distinct-text check); all Sop/Esop/Soes with <= 3 terms over n<=2 and <= 2 (quick) / <= 3 (thorough) terms over n=3.",
+        rule: "cases = (n, object, second object, assignments): a Cube, Ecube, Sop, Esop or Soes built from a build description (every constructor, operator results included; Sop/Esop/Soes over min(n,12) variables, cubes and exclusive cubes over up to 32, full-support objects included, so that two-digit indices and the all-variables boundary occur). to_string() is read by the harness's own tokenizer + parser for `or := xor ('|' xor)*, xor := prod ('^' prod)*, prod := ('0' | '1' | '!'? 'x' digits)+` (white space insignificant) — the text must parse completely — and evaluated on all assignments (<= 8 variables; cubes: n<=5) or on generated 32-bit assignments plus all-zeros/all-ones otherwise, and compared with the object's own value(). Variable indices must be strictly increasing inside each product and inside each XOR term; for cubes and exclusive cubes a == b iff their texts are equal. Non-trivial = the text contains a `!`, a two-digit index or >= 2 terms. Exhaustive: all cubes and exclusive cubes of n<=4 (each paired with itself and three neighbours for the distinct-text check); all Sop/Esop/Soes with <= 3 terms over n<=2 and <= 2 (quick) / <= 3 (thorough) terms over n=3.",
         assumptions: vec!["the `evident grammar` is the one stated in the property; value() of the object is the reference for the meaning"],
         subs: vec![Box::new(Sub {
             name: "display",
